@@ -87,6 +87,7 @@ def scn(params):
         if rng.random() < 0.5:
             ids[0] = 0
         window = []          # the forwarded queries in order: (asker addr, id)
+        attempts = []        # every query iodined tried to forward, in order: (asker addr, id, sendto succeeded)
         outstanding = []     # forwarded datagrams the resolver has received and not yet answered: (id, bytes)
         wit = {"seed": seed}
 
@@ -106,12 +107,26 @@ def scn(params):
                 sport = rng.choice([53, 1024, 33333, 40000 + rng.randrange(50)])
                 q = proto.build_query(qid, name, qt, edns0=rng.random() < 0.3)
                 v6 = ":" in r.ip
+                faulty = rng.random() < params.get("p_sendfault", 0)
+                if faulty:
+                    # the operating system refuses the forwarding sendto() (ENOBUFS, EPERM from a firewall rule, ECONNREFUSED
+                    # left by an earlier ICMP error): nothing is forwarded and nobody else's pending query may suffer
+                    k.send_faults.append({"proc": "srv", "dst_port": BIND_PORT, "errno": rng.choice([105, 1, 111]), "count": 1})
                 r.send(sport, (scen.SERVER_IP6 if v6 else scen.SERVER_IP, 53), q)
                 n0 = len(res.got)
                 k.run(k.now + rng.choice([2500, 2500, 10000]))
                 out["stats"]["fwd_queries"] += 1
                 out["stats"]["v6_requests"] += int(v6)
                 new = res.got[n0:]
+                if faulty:
+                    fired = not any(f["count"] > 0 for f in k.send_faults)
+                    k.send_faults[:] = []
+                    if fired:
+                        out["stats"]["sendto_failures_injected"] = out["stats"].get("sendto_failures_injected", 0) + 1
+                        attempts.append(((r.ip, sport), qid, False))
+                        if new:
+                            out["violations"].append(("C20:harness:fault-not-effective", "a datagram reached the resolver although sendto was failed", dict(wit)))
+                        continue
                 if len(new) != 1:
                     errs = [ev for ev in srv_events(mark) if ev[1] == "send_error"]
                     out["violations"].append(("C20:query-not-forwarded" if not new else "C20:query-forwarded-more-than-once",
@@ -130,6 +145,7 @@ def scn(params):
                                               dict(wit, time_us=k.now, sent=q.hex()[:200], forwarded=fdata.hex()[:200])))
                     continue
                 window.append(((r.ip, sport), qid))
+                attempts.append(((r.ip, sport), qid, True))
                 outstanding.append((qid, fdata, fsrc))
             elif op in ("reply", "dupreply", "unsolicited"):
                 if op == "unsolicited" or not outstanding:
@@ -162,11 +178,30 @@ def scn(params):
                 rid = struct.unpack(">H", body[:2])[0] if len(body) >= 12 else 0
                 recent = window[-16:]
                 askers = [a for (a, i) in recent if i == rid]
+                if len(attempts) != len(window):
+                    # Some forwarding attempts failed in sendto().  Whether such an attempt counts among "the 16 most recent
+                    # forwarded queries" the property leaves open, so only what holds under both readings is demanded:
+                    # delivery is owed to askers that are among the 16 most recent attempts and whose query did go out;
+                    # delivery is tolerated to any asker of that id among the 16 most recent attempts or forwarded queries.
+                    must = [a for (a, i, ok) in attempts[-16:] if i == rid and ok]
+                    may = set(askers) | {a for (a, i, _ok) in attempts[-16:] if i == rid}
+                    if len(body) >= 12:
+                        out["stats"]["replies_after_send_failure"] = out["stats"].get("replies_after_send_failure", 0) + 1
+                        ok = (len(got) == 1 and got[0][1][2] in may and got[0][1][3] == body) if (must or got) else True
+                        if not ok:
+                            out["violations"].append(("C20:reply-not-routed-to-asker" if must else "C20:reply-sent-to-another-requester",
+                                                      "after failed forwarding attempts: reply with id %d (owed to %s, tolerable for %s) was delivered to %s"
+                                                      % (rid, sorted(set(must)), sorted(may), [(ip, g[2]) for ip, g in got] or "nobody"),
+                                                      dict(wit, time_us=k.now, attempts=repr(attempts[-17:])[:600])))
+                        elif got:
+                            out["stats"]["replies_relayed"] += 1
+                        continue
                 if len(body) < 12:
                     # no DNS header, hence no id: iodined treats it as id 0.  Reaching nobody, or whoever asked with
                     # id 0, are both compatible with the property; anybody else is not.
                     out["stats"]["replies_without_header"] = out["stats"].get("replies_without_header", 0) + 1
-                    if got and not (len(got) == 1 and got[0][1][2] in askers and got[0][1][3] == body):
+                    tolerated = set(askers) | {a for (a, i, _ok) in attempts[-16:] if i == rid}
+                    if got and not (len(got) == 1 and got[0][1][2] in tolerated and got[0][1][3] == body):
                         out["violations"].append(("C20:reply-sent-to-another-requester",
                                                   "a %d-byte datagram from the resolver was sent to %s" % (len(body), [(ip, g[2]) for ip, g in got]),
                                                   dict(wit, time_us=k.now)))
@@ -221,7 +256,7 @@ def run(ctx):
     res = core.Result()
     res.rule = ("Engine A: histories of 60-250 operations (ask from one of 2-12 requesters at varying ports with an id from a domain of "
                 "3-20 values incl. 0, resolver reply to any outstanding forwarded query, duplicate reply, unsolicited reply, truncated "
-                "reply, tunnel ping, time advance) against iodined -b; forward rule and reply rule judged at the socket boundary. "
+                "reply, tunnel ping, time advance; in a third of the histories 5-30 % of the forwarding sendto() calls are failed by the simulated OS) against iodined -b; forward rule and reply rule judged at the socket boundary. "
                 "Engine B: every put/get history of the table over 3 ids x 2 askers up to the stated depth, every ring phase 0..47 x every "
                 "history up to the phase depth (exhaustive), plus random long histories; oracle = reference ring of the 16 most recent "
                 "forwarded queries. evaluations = table lookups (B) + forwarded queries and resolver replies judged (A); distinct "
@@ -233,7 +268,7 @@ def run(ctx):
     n = ctx.pick(400, 30000)
     plist = [{"idx": i, "seed": ctx.seed * 100000 + i, "rseed": rng.getrandbits(32), "nops": rng.randint(60, 250),
               "idspace": rng.choice([3, 4, 6, 10, 20]), "nreq": rng.randint(2, 12), "v6": rng.random() < 0.3,
-              "opt_c": rng.random() < 0.2} for i in range(n)]
+              "opt_c": rng.random() < 0.2, "p_sendfault": rng.choice([0, 0, 0, 0.05, 0.1, 0.3])} for i in range(n)]
     if ctx.replay and "params" in ctx.replay["witness"]:
         plist = [ctx.replay["witness"]["params"]]
     res.min_evaluations = 0 if ctx.replay else 100000
